@@ -1,0 +1,67 @@
+//! Read-only state snapshots for external verification harnesses.
+//! Only compiled with the `verif-hooks` feature; nothing here changes behaviour.
+#![allow(missing_docs)]
+
+use crate::Integrity;
+use std::time::{Duration, Instant};
+use stun_rs::TransactionId;
+
+#[derive(Debug, Clone, PartialEq, Eq)]
+pub struct VerifRto {
+    pub latest: Option<Instant>,
+    pub last_rto: Duration,
+    pub rtt: Duration,
+    pub rm: u32,
+    pub rc: u32,
+    pub last_rm: u32,
+}
+
+#[derive(Debug, Clone, PartialEq, Eq)]
+pub struct VerifTransaction {
+    pub id: TransactionId,
+    pub instant: Option<Instant>,
+    pub packet: Vec<u8>,
+    pub rtos: VerifRto,
+}
+
+#[derive(Debug, Clone, PartialEq, Eq)]
+pub enum VerifRtt {
+    Reliable(Duration),
+    Unreliable {
+        rto: Duration,
+        srtt: Duration,
+        rttvar: Duration,
+        granularity: Duration,
+        configured_rto: Duration,
+        rm: u32,
+        rc: u32,
+        last_request: Option<Instant>,
+    },
+}
+
+#[derive(Debug, Clone, PartialEq, Eq)]
+pub enum VerifMechanism {
+    None,
+    ShortTerm {
+        integrity: Option<Integrity>,
+        violated: Vec<TransactionId>,
+    },
+    LongTerm {
+        state: String,
+        params: Option<String>,
+        violated: Vec<TransactionId>,
+    },
+}
+
+#[derive(Debug, Clone, PartialEq, Eq)]
+pub struct VerifSnapshot {
+    /// Outstanding transactions (map iteration order: unspecified).
+    pub transactions: Vec<VerifTransaction>,
+    /// Pending timeout entries (armed-at, duration, id) in heap storage order.
+    pub timeouts: Vec<(Instant, Duration, TransactionId)>,
+    pub rtt: VerifRtt,
+    pub mechanism: VerifMechanism,
+    pub use_fingerprint: bool,
+    pub max_transactions: usize,
+    pub pending_events: usize,
+}
